@@ -38,8 +38,10 @@ from common import NCPU, Outcome, proof_coverage, proof_stage, run_driver, seed,
 
 try:
     import eng_escapes  # the escape clause of C12 (written separately)
-except ImportError:
+    ESCAPES_IMPORT_ERROR = None
+except Exception as _e:  # noqa: BLE001  (absent, or not importable right now)
     eng_escapes = None
+    ESCAPES_IMPORT_ERROR = f"{type(_e).__name__}: {_e}"
 
 THEOREMS = [
     "Pest.C12.ascii_tables_spec",
@@ -62,6 +64,7 @@ THEOREMS = [
     "Pest.C12.caseVariant_iff",
     "Pest.C12.caseVariant_nonletter",
     "Pest.C12.ci_modes_agree",
+    "Pest.C12.finding_ci_nonascii_fold",
     "Pest.C12.unicode_rule_same_pattern",
     "Pest.C12.unicode_patterns_wellformed",
     "Pest.CharSet.ivMem_mergeGo",
@@ -809,13 +812,14 @@ POOL = TRICKY + LETTERS + CTRL + NONASCII + ASTRAL + [ord(c) for c in "09azAZ"]
 NO_SKIP = {0x30, 0x31}      # delimiters of the WHITESPACE family
 
 
-def fixed_cases():
+def fixed_cases(table_names=()):
     cs = []
 
     def add(family, atoms, kind="single"):
         cs.append({"family": family, "kind": kind, "atoms": [list(a) for a in atoms]})
 
-    for name in PY_ASCII:
+    # every name pest defines, and every name the regenerated ASCII_RULE_MAP has (a changed or added entry is swept)
+    for name in list(PY_ASCII) + [n for n in table_names if n not in PY_ASCII]:
         add("ascii", [("builtin", name)])
     add("newline", [("builtin", "NEWLINE")])
     add("any", [("builtin", "ANY")])
@@ -1210,7 +1214,7 @@ def run(out: Outcome) -> None:  # noqa: PLR0912, PLR0915
 
     rng = random.Random(seed() * 7919 + 12)
     unames = [n for n, _, _ in tables["unicode"]]
-    cases = fixed_cases()
+    cases = fixed_cases([n for n, _ in tables["ascii_map"]])
     cases += random_cases(rng, 400 if thorough else 40)
     cases += unicode_cases(rng, unames, len(unames) if thorough else 40, 60 if thorough else 8)
     rng.shuffle(cases)
@@ -1307,7 +1311,7 @@ def run(out: Outcome) -> None:  # noqa: PLR0912, PLR0915
     esc_info: dict = {"ran": False}
     esc_concrete: list = []
     if eng_escapes is None:
-        esc_info["why"] = "harness/eng_escapes.py not present"
+        esc_info["why"] = "harness/eng_escapes.py not usable: " + str(ESCAPES_IMPORT_ERROR)
     else:
         try:
             er = eng_escapes.run_escape_part(out)
